@@ -118,8 +118,9 @@ def find_memo_sites(model, ctx=None):
                                 if isinstance(t, ast.Subscript) and isinstance(t.value, ast.Attribute) \
                                    and t.value.attr == c.attr and norm(t.value.value) == owner:
                                     sites.append(MemoSite(f, 'dict-key', owner, c.attr, n, st, st.value, ks))
-        # setattr(self, n, value) memo (Pulse_Container.matrix)
-        for n in walk_no_nested(f.node):
+        # setattr(self, n, value) memo (Pulse_Container.matrix); a property setter that derives attributes from
+        # the value it is given is not a memo
+        for n in ([] if f.kind == 'setter' else walk_no_nested(f.node)):
             if isinstance(n, ast.Call) and isinstance(n.func, ast.Name) and n.func.id == 'setattr' \
                and len(n.args) == 3:
                 ks = {x.id for x in ast.walk(n.args[1]) if isinstance(x, ast.Name)}
